@@ -90,4 +90,9 @@ func init() {
 	dlitolCmd.PersistentFlags().StringVarP(&dltreeid, "tree-id", "i", "", "Tree id to download")
 	dlitolCmd.PersistentFlags().StringVarP(&dlformat, "format", "f", "pdf", "Tree output format (png, pdf, eps, svg, newick, nexus, phyloxml)")
 	dlitolCmd.PersistentFlags().StringVarP(&dloutput, "output", "o", "stdout", "Tree output file")
+	// --format has the name of the global option giving the input tree format:
+	// the help would list only that one, and not this option and its default
+	if lf := dlitolCmd.LocalFlags(); lf.Lookup("format") == nil {
+		lf.AddFlag(dlitolCmd.PersistentFlags().Lookup("format"))
+	}
 }
